@@ -584,6 +584,7 @@ type Observation struct {
 }
 
 type VC struct {
+	obsCone  bool // keep the definitions of observed terms (replay query; single-threaded use)
 	w        *World
 	decls    []Decl
 	asserts  []Assertion
@@ -930,6 +931,11 @@ func (vc *VC) relevant(o *Obligation, abstractFloats int) ([]bool, map[string]bo
 	add(vc.symbolsOf(o.PC.S))
 	for _, e := range o.Extra {
 		add(vc.symbolsOf(e))
+	}
+	if vc.obsCone {
+		for _, ob := range o.Observe {
+			add(vc.symbolsOf(ob.T.S))
+		}
 	}
 	vc.prepAll()
 	if os.Getenv("HV_NOPRUNE") != "" {
